@@ -340,6 +340,21 @@ def session_case(seed):
     gen_h1.closing_not_last = False
     script, plan, alpn = {"h1": gen_h1, "ws": gen_ws, "h2": gen_h2}[kind](rng)
     closing_not_last = gen_h1.closing_not_last
+    # Writes of the client that fall on the same virtual instant reach the two servers in different segmentations (the
+    # asyncio stand-in takes them in one read, the trio client task yields between them): give every write its own
+    # instant, so that both servers see the same reads at the same times.
+    spaced = []
+    for st in script:
+        if st[0] == "sleep" and st[1] <= 0.0:
+            continue
+        if spaced and spaced[-1][0] != "sleep" and st[0] != "sleep":
+            spaced.append(("sleep", 0.0137))
+        spaced.append(st)
+    script = spaced
+    # likewise an application that answers on the very instant at which the reader resumes over input that is already
+    # buffered (a pipelined request, surplus bytes, the client's EOF) races with the reader, and each runtime's scheduler
+    # settles that race its own way: every application send gets its own instant too
+    plan = [[x for st in steps for x in ((("sleep", 0.0071), st) if st[0] in ("send", "send!") else (st,))] for steps in plan]
     T = rng.choice([5.0, 5.0, 1.0])
     out = {}
     for backend, run in (("asyncio", W.run_asyncio), ("trio", W.run_trio)):
@@ -354,8 +369,24 @@ def session_case(seed):
         if out["asyncio"][key] != out["trio"][key]:
             a, t = out["asyncio"][key], out["trio"][key]
             sig = "workers-differ:" + key
-            trio_only_400 = isinstance(a, bytes) and isinstance(t, bytes) and t.startswith(a) and t[len(a):].startswith(b"HTTP/1.1 400 ")
-            asyncio_only_400 = isinstance(a, bytes) and isinstance(t, bytes) and a.startswith(t) and a[len(t):].startswith(b"HTTP/1.1 400 ")
+            trio_only_400 = asyncio_only_400 = False
+            if key == "wire" and isinstance(a, bytes) and isinstance(t, bytes):
+                # the wire as a list of responses; the two agree up to the last one, which on one worker is the server's own 400
+                # (content-length: 0, connection: close) and on the other is missing or is the application's closing response
+                pa, pt = (re.split(rb"(?=HTTP/1\.1 \d\d\d )", w) for w in (a, t))
+                n = 0
+                while n < min(len(pa), len(pt)) and pa[n] == pt[n]:
+                    n += 1
+                ra, rt = pa[n:], pt[n:]
+
+                def own400(r):
+                    return len(r) == 1 and r[0].startswith(b"HTTP/1.1 400 ") and b"content-length: 0\r\n" in r[0] and r[0].endswith(b"\r\n\r\n")
+
+                def closing_or_nothing(r):
+                    return len(r) == 0 or (len(r) == 1 and b"connection: close\r\n" in r[0].lower())
+
+                trio_only_400 = own400(rt) and len(ra) <= 1     # asyncio: nothing, or the application's own answer in its place
+                asyncio_only_400 = own400(ra) and closing_or_nothing(rt)
             if key == "wire" and (trio_only_400 or (asyncio_only_400 and closing_not_last)):
                 # trio reports the client's EOF to the HTTP/1 parser even when it arrived while the reader was parked behind
                 # an unanswered request; asyncio's `while not reader.at_eof()` then leaves without reading it
